@@ -14,7 +14,7 @@ use vexplore::scripts::Script;
 use vexplore::util::*;
 use vmodel::strip::StripModel;
 
-const ERR_KINDS: [ErrorKind; 3] = [ErrorKind::Interrupted, ErrorKind::WouldBlock, ErrorKind::Other];
+const ERR_KINDS: [ErrorKind; 4] = [ErrorKind::Interrupted, ErrorKind::WouldBlock, ErrorKind::Other, ErrorKind::BrokenPipe];
 
 #[derive(Default)]
 struct Shared {
@@ -88,6 +88,19 @@ pub enum Driver {
     /// `write!` of a value whose `Display` writes input[..cut], IGNORES a failure, writes input[cut..] and then
     /// returns the first failure ("always emit the closing reset"): the inner error must still arrive with its kind
     FmtStubborn(usize),
+    /// `write!` of a value whose `Display` writes input[..cut] and then returns `Err` on its own (the stream did not
+    /// fail), followed by `write_all(input[cut..])` on the same stream: the abandoned call's pieces were consumed, so
+    /// both calls together must deliver what one call with the whole input delivers
+    FmtAbandonThen(usize),
+}
+
+/// see `Driver::FmtAbandonThen`
+struct Abandon<'a>(&'a str);
+impl std::fmt::Display for Abandon<'_> {
+    fn fmt(&self, f: &mut std::fmt::Formatter<'_>) -> std::fmt::Result {
+        f.write_str(self.0)?;
+        Err(std::fmt::Error)
+    }
 }
 
 /// see `Driver::FmtStubborn`
@@ -363,6 +376,56 @@ pub fn run_case(mode: Mode, input: &[u8], driver: Driver, script: Script) -> (Re
                 }
                 Ok(())
             }
+            Driver::FmtAbandonThen(cut) => {
+                let mut strip_s;
+                let mut auto_s;
+                let stream: &mut dyn Write = match mode {
+                    Mode::Strip => {
+                        strip_s = anstream::StripStream::new(boxed);
+                        &mut strip_s
+                    }
+                    Mode::PassAnsi => {
+                        auto_s = anstream::AutoStream::always_ansi(boxed);
+                        &mut auto_s
+                    }
+                    Mode::PassAlways => {
+                        auto_s = anstream::AutoStream::always(boxed);
+                        &mut auto_s
+                    }
+                };
+                let a = std::str::from_utf8(&input[..cut]).map_err(|_| "machinery: fragment not UTF-8".to_string())?;
+                begin_call(&sh);
+                let first = write!(stream, "{}", Abandon(a));
+                let errs1 = sh.borrow().call_errors.clone();
+                if first.is_ok() {
+                    return Err("write! returned Ok(()) although the Display impl returned an error".into());
+                }
+                if !errs1.is_empty() || sh.borrow().call_short {
+                    // the inner writer deviated during the abandoned call: the two-call drivers judge that situation
+                    return Ok(());
+                }
+                begin_call(&sh);
+                let second = stream.write_all(&input[cut..]);
+                let (errs, zero) = {
+                    let s = sh.borrow();
+                    (s.call_errors.clone(), s.call_zero)
+                };
+                match second {
+                    Ok(()) => {
+                        if errs.iter().any(|k| *k != ErrorKind::Interrupted) {
+                            return Err(format!("inner error {:?} was turned into success", errs[0]));
+                        }
+                        check_delivered(mode, input, input.len(), &sh, "after an abandoned write! of the first part and write_all of the rest")
+                    }
+                    Err(e) => {
+                        let allowed = errs.contains(&e.kind()) || (zero && e.kind() == ErrorKind::WriteZero);
+                        if !allowed {
+                            return Err(format!("returned error kind {:?} but the inner writer raised {:?} (accepted zero bytes: {zero})", e.kind(), errs));
+                        }
+                        Ok(())
+                    }
+                }
+            }
             Driver::FmtStubborn(cut) => {
                 let mut strip_s;
                 let mut auto_s;
@@ -508,6 +571,7 @@ pub fn drivers_for(tokens: &[usize]) -> Vec<Driver> {
             d.push(Driver::TwoWriteAll(c));
             d.push(Driver::TwoFmt(c));
             d.push(Driver::FmtStubborn(c));
+            d.push(Driver::FmtAbandonThen(c));
         }
     }
     // vectored: every pair of byte positions a <= b (cuts may fall inside "é")
@@ -557,6 +621,8 @@ pub fn parse_driver(s: &str) -> Driver {
         Driver::TwoFmt(nums[0])
     } else if s.starts_with("FmtStubborn") {
         Driver::FmtStubborn(nums[0])
+    } else if s.starts_with("FmtAbandonThen") {
+        Driver::FmtAbandonThen(nums[0])
     } else if s.starts_with("WriteAll") {
         Driver::WriteAll
     } else {
@@ -582,6 +648,7 @@ pub fn driver_label(mode: Mode, driver: Driver) -> String {
         Driver::TwoWriteAll(_) => "write_all; write_all".to_string(),
         Driver::TwoFmt(_) => "write_fmt; write_fmt".to_string(),
         Driver::FmtStubborn(_) => "write_fmt-display-continues-after-error".to_string(),
+        Driver::FmtAbandonThen(_) => "write_fmt-abandoned-by-display; write_all".to_string(),
     };
     format!("{m}/{d}")
 }
@@ -605,7 +672,9 @@ pub fn sweep(mode: Mode, maxlen: usize, k_of: &(dyn Fn(usize) -> usize + Sync)) 
             let input: Vec<u8> = toks.iter().flat_map(|&i| SYMS[i].to_vec()).collect();
             let mut d = drivers_for(&toks);
             if mode != Mode::Strip {
-                d.retain(|d| *d != Driver::AutoNeverProtocol);
+                // (in the pass-through modes write! is std's own `io::Write::write_fmt` of the inner writer, which panics
+                // by design when a Display impl fails on its own)
+                d.retain(|d| *d != Driver::AutoNeverProtocol && !matches!(d, Driver::FmtAbandonThen(_)));
             }
             (input, toks.len(), d)
         })
@@ -616,7 +685,7 @@ pub fn sweep(mode: Mode, maxlen: usize, k_of: &(dyn Fn(usize) -> usize + Sync)) 
     cases.par_iter().for_each(|(input, ntoks, drivers)| {
         for &driver in drivers {
             let k = k_of(*ntoks);
-            let kk = if matches!(driver, Driver::Vectored(..) | Driver::TwoWriteAll(_) | Driver::TwoFmt(_) | Driver::FmtStubborn(_)) && *ntoks > 4 { k - 1 } else { k };
+            let kk = if matches!(driver, Driver::Vectored(..) | Driver::TwoWriteAll(_) | Driver::TwoFmt(_) | Driver::FmtStubborn(_) | Driver::FmtAbandonThen(_)) && *ntoks > 4 { k - 1 } else { k };
             let st = vexplore::scripts::enumerate(kk, |s| {
                 let r = match guard(|| run_case(mode, input, driver, s.clone())) {
                     Ok((r, script)) => {
@@ -678,7 +747,7 @@ fn large_drivers(mode: Mode, input: &[u8]) -> Vec<Driver> {
         d.push(Driver::Vectored(a, b));
     }
     if let Ok(t) = std::str::from_utf8(input) {
-        for cut in [n / 2, n.min(8192), n.min(8191)] {
+        for cut in [n / 2, n.min(8192), n.min(8191), 1, 9, 100] {
             let cut = (0..=cut).rev().find(|&c| t.is_char_boundary(c)).unwrap_or(0);
             d.push(Driver::WriteFmt(cut));
         }
